@@ -246,11 +246,17 @@ def _breakable(body, cls, limit, split_blank_runs=True):
     cap_first = limit - len(end_mark)
     cap_mid = limit - len(start_mark) - len(end_mark)
     cap_last = limit - len(start_mark)
+    # A continuation line that holds nothing but blanks is only accepted for
+    # statements (where the blanks may be part of a character literal).
+    blank_ok = cls in ("statement", "other")
     reached = []
     for cut in cuts:
-        if cut <= cap_first or any(cut - prev <= cap_mid for prev in reached):
+        if cut <= cap_first or any(
+                cut - prev <= cap_mid and
+                (blank_ok or body[prev:cut].strip()) for prev in reached):
             reached.append(cut)
-    return any(size - cut <= cap_last for cut in reached)
+    return any(size - cut <= cap_last and (blank_ok or body[cut:].strip())
+               for cut in reached)
 
 
 def wrappable(line, cls, limit):
